@@ -42,6 +42,15 @@ def gen(rng, tier):
         p = G.random_pda(rng, rng.randint(1, 3), rng.choice(['a', 'ab']), rng.choice(['x', 'xy']), rng.choice(['_', 'ε']), ntrans=rng.randint(1, 7), pfinal=0.5)
         p['delta'] = [t for t in p['delta'] if not (t[1] == p['eps'] and t[4] != p['eps'])]
         cases.append({'kind': 'pda', 'X': p, 'ws': G.words_str(p['Sigma'], 3 if len(p['Sigma']) == 1 else 2), 'limit': 1000})
+    # stack symbols of several characters whose concatenations coincide (['xy'] and ['x', 'y'] are different stacks)
+    for _ in range(80 if quick else 1500):
+        p = G.random_pda(rng, rng.randint(1, 3), rng.choice(['a', 'ab']), ['x', 'y', 'xy'], rng.choice(['_', '']), ntrans=rng.randint(3, 9), pfinal=0.5,
+                         kinds=['push', 'pop', 'push', 'pop', 'noop'])
+        p['delta'] = [t for t in p['delta'] if not (t[1] == p['eps'] and t[4] != p['eps'])]
+        cases.append({'kind': 'pda', 'X': p, 'ws': G.words_str(p['Sigma'], 3 if len(p['Sigma']) == 1 else 2), 'limit': 1000})
+    for _ in range(12 if quick else 100):
+        p = G.spelling_pda(rng)
+        cases.append({'kind': 'pda', 'X': p, 'ws': ['aab', 'aabb', 'aa', 'ab', 'aabbb', ''], 'limit': 1000})
     # pushing epsilon loops (infinitely many epsilon-reachable configurations): the closures are cut off at a small limit, the
     # path search of pda_simulate_word must still return for every word the acceptance test accepts
     for _ in range(80 if quick else 1500):
